@@ -10,6 +10,8 @@ VACUITY_ALLOWED = [
     # the std-mutex configuration is compiled out (A5): the statement after `return internal.lock();`
     ("::acquire_internal", '#[cfg(feature = "std-mutex")]'),
     ("::try_acquire_internal", '#[cfg(feature = "std-mutex")]'),
+    # spin_cond: `for _ in 0..OS_YIELD` with `const OS_YIELD: usize = 0` -- the body (one `return;`) is dead code in the source
+    ("::spin_cond", "return;", 1),
 ]
 
 R1 = "R1 mutual exclusion of channel critical sections and visibility between them (object of C17; the spin lock's exclusion under the C11 memory model is assumed, U2 proves only the sequential contracts of RawMutexLock)"
@@ -40,6 +42,13 @@ T_SIGNAL = [
 T_TIME = ["T9 Instant::now/checked_add/comparison (assumed clock token `reached`)", "T10 thread::park/yield/sleep, available_parallelism, spin_loop return and do not touch channel state"]
 
 
+T_U2 = [
+    "U2 stand-ins (prelude_u2.rs): AtomicBool / AtomicU8 / AtomicU32 / AtomicUsize, fence, Ordering with sequential one-directional contracts (a winning compare_exchange(false->true, >=Acquire) lets the caller conclude `acquired`; a load lets it conclude `observed(v)`); atomics are treated as sequentially consistent",
+    "U2 trusted leaves: get_parallelism, random_u7, random_u32 (function-local statics), sleep / spin_hint / yield_now_std (std::thread), Instant::now and comparison (clock token), Waker::clone / will_wake, KanalPtr (opaque), UnsafeCell/Thread stand-ins",
+    "glue between U1 and U2 (assumed, R2a): the signal states UNLOCKED and TERMINATED are final, so `observed(UNLOCKED)` (U2) is `delivered` (U1) and `observed(TERMINATED)` is `seen_terminated` / not delivered; L-MUTEX: `acquired` = holding the channel lock",
+    "not woven in U2 (raw pointers / thread handles, no installed tool reads them): Signal::wait, Signal::wake, Signal::send/recv/terminate/send_copy, assume_init, load_and_drop, get_terminator, SignalTerminator::*; backoff::randomize/random_u32 (dead code)",
+]
+
 def mk(units, trusted, assumptions, explanation):
     return {"units": units, "trusted": T_COMMON + trusted, "assumptions": assumptions, "explanation": explanation}
 
@@ -48,7 +57,7 @@ PROPS = {
     "C01": mk(["u1"], T_SIGNAL, [R1, R2, R3, A1, A5], "conservation + ownership contracts on every critical section; effect log of hand-offs"),
     "C02": mk(["u1"], T_SIGNAL, [R1, R2, R3, A1, A5], "every send-type section appends at the tail of the logical order, every receive-type section takes its head"),
     "C03": mk(["u1"], T_SIGNAL, [R1, R2, R3, A1, A5], "every entry point ensures one atomic reference step per critical section; lock invariant at every guard death"),
-    "C04": mk(["u1"], T_SIGNAL + ["Kani 0.68 / CBMC 6.11 as shipped; one ignored CBMC check (zero-byte memset of core::mem::zeroed::<ZST>) listed under kani_tool_artefacts_ignored"],
+    "C04": mk(["u1", "u2"], T_SIGNAL + T_U2 + ["Kani 0.68 / CBMC 6.11 as shipped; one ignored CBMC check (zero-byte memset of core::mem::zeroed::<ZST>) listed under kani_tool_artefacts_ignored"],
               [R1, R2, R3, A1, A5, "universal quantifier over the message type T is covered by size/alignment classes (ZST, over-aligned ZST, 1,2,3,4,8 bytes, padded, 16, 24 bytes, padded large), each over its full value domain",
                "memory ordering (release store after the payload write / acquire before the read) is NOT decided: Verus assumes SC, Kani has no threads"],
               "Kani: KanalPtr and Signal transport every value bit-for-bit per size class (complete per instance); Verus: a receiver reads a slot only with evidence of delivery and with the size dispatch consistent"),
@@ -58,10 +67,12 @@ PROPS = {
     "C10": mk(["u1"], T_SIGNAL, [R1, R2, R3, A1, A5], "close contract; closed is absorbing on every entry point"),
     "C11": mk(["u1"], T_SIGNAL, [R1, R2, R3, A1, A5], "Drop contracts; drain before SendClosed"),
     "C12": mk(["u1"], [], [R1, A1, A3, A5], "+-1 contracts on every clone/drop/convert; conversions are transmutes (shape check)"),
-    "C13": mk(["u1"], T_SIGNAL + T_TIME, [R1, R2, R3, A1, A4, A5], "timed operations: two critical sections, timeout only after a successful cancel under the lock, not before the deadline (clock token)"),
-    "C14": mk(["u1"], T_SIGNAL, [R1, R2, A1, A5], "blocking-effect tokens in requires; total correctness of the non-blocking entry points"),
-    "C15": mk(["u1"], T_SIGNAL, [R1, R2, R3, A1, A5], "Drop contracts of both futures: cancel under the lock, else wait for the peer, value disposed exactly once"),
-    "C16": mk(["u1"], T_SIGNAL, [R1, R2, R3, A1, A5], "poll contracts: Pending implies current waker registered, waker replaced only under the lock, re-arm only with a fresh signal, value only on evidence of delivery, sticky stream end"),
+    "C13": mk(["u1", "u2"], T_SIGNAL + T_TIME + T_U2, [R1, R2, R3, A1, A4, A5], "timed operations: two critical sections, timeout only after a successful cancel under the lock, not before the deadline (clock token)"),
+    "C14": mk(["u1", "u2"], T_SIGNAL + T_U2, [R1, R2, A1, A5], "blocking-effect tokens in requires; total correctness of the non-blocking entry points"),
+    "C15": mk(["u1", "u2"], T_SIGNAL + T_U2, [R1, R2, R3, A1, A5], "Drop contracts of both futures: cancel under the lock, else wait for the peer, value disposed exactly once"),
+    "C16": mk(["u1", "u2"], T_SIGNAL + T_U2, [R1, R2, R3, A1, A5], "poll contracts: Pending implies current waker registered, waker replaced only under the lock, re-arm only with a fresh signal, value only on evidence of delivery, sticky stream end"),
+    "C17": mk(["u2"], T_U2, [A1, A5, "mutual exclusion under the C11 memory model is NOT proved: the contracts are sequential; L-MUTEX derives exclusion over the contracts assuming atomic CAS and sequential consistency", "progress (a blocking acquisition succeeds once the holder leaves) is excluded (liveness)"],
+              "contracts on try_lock / lock / lock_no_inline / unlock / spin_cond on the real text + interleaving lemma over those contracts (reduced claim)"),
     "C18": mk(["u1"], T_SIGNAL + T_TIME, [R1, R2, R3, A1, A2, A3, A4, A5], "each entry point equals a deterministic reference function; panic- and overflow-freedom"),
     "C19": mk(["u1"], T_SIGNAL, [R1, R2, R3, A1, A2, A5], "full functional post-condition of drain_into including both loops"),
 }
